@@ -80,6 +80,9 @@ func (m *Controller) isOptimizedDuringWaiting(node Node) (bool, error) {
 	if err != nil {
 		return false, err
 	}
+	if replicationStatus == nil {
+		return false, fmt.Errorf("host %s has no replica status", node.Host())
+	}
 
 	lag := replicationStatus.GetReplicationLag()
 	if lag.Valid && lag.Float64 < float64(m.config.LowReplicationMark) {
